@@ -550,7 +550,7 @@ def manipulate(crv, f, normalized=False, vectorized=False):
                 elif arg_names[j] == 'a':
                     a = crv.derivative(t1, 2)
                     if b.continuity(t1) < 2:
-                        a += crv.derivative(t1, 1, above=False)
+                        a += crv.derivative(t1, 2, above=False)
                         a /= 2.0
                     if normalized:
                         a /= norm(a)
